@@ -1,6 +1,9 @@
 // C12 sub-exploration (3): modular helpers on the cube A x A x M against unsigned __int128.
 // Built once plainly (g++) and once with clang -fsanitize=unsigned-integer-overflow in recover mode;
 // the report hook below attributes an intermediate wrap to the (op, a, b, n) being evaluated.
+// A second, mul_mod-centred pass runs a structured operand lattice per modulus (see lattice_a / lattice_b):
+// fractions of n, k*2^j, and for every a the operands around the boundaries of mul_mod's own chunking
+// (b = q*floor(n/a) + r).  Every call is guarded by the watchdog of c12_watchdog.hh.
 // usage: c12_modcube PART NPARTS K
 //        c12_modcube single OP A B N      (replay of one case)
 #pragma once
@@ -10,6 +13,7 @@
 
 #include "au/utility/mod.hh"
 #include "c12_oracle.hh"
+#include "c12_watchdog.hh"
 
 extern "C" {
 volatile unsigned long c12_ubsan_reports = 0;
@@ -73,9 +77,56 @@ inline std::vector<u64> operands(u64 n) {
     return out;
 }
 
+// Lattice pass, first operands: the cube operands plus floor(n*i/32)+{-1,0,1} (i = 1..31) and k*2^j
+// (k = 3, 5, 7; j = 0, 4, .., 60).
+inline std::vector<u64> lattice_a(u64 n, const std::vector<u64> &A) {
+    std::vector<u64> out = A;
+    for (u64 i = 1; i < 32; ++i)
+        for (i128 d = -1; d <= 1; ++d) {
+            const i128 x = (i128)(((u128)n * i) >> 5) + d;
+            if (x >= 0 && x < (i128)n) out.push_back((u64)x);
+        }
+    for (u64 k = 3; k <= 7; k += 2)
+        for (int j = 0; j <= 60; j += 4) {
+            const u128 x = (u128)k << j;
+            if (x < (u128)n) out.push_back((u64)x);
+        }
+    uniq(out);
+    return out;
+}
+// Second operands for a given a >= 1: with cs = floor(n/a) (the chunk size of mul_mod's slow path),
+// b = q*cs + r for q in {1,2,3,4,7,8,15,16,17, 2^8, 2^16, 2^24, 2^32, 2^40, 2^48, qmax/3, qmax/2,
+// qmax-1, qmax} (qmax = floor((n-1)/cs)) and r in {0..16, cs/2, cs-2, cs-1}; plus floor(n*i/32)+{-1,0,1}.
+inline std::vector<u64> lattice_b(u64 n, u64 a) {
+    std::vector<u64> out;
+    for (u64 i = 1; i < 32; ++i)
+        for (i128 d = -1; d <= 1; ++d) {
+            const i128 x = (i128)(((u128)n * i) >> 5) + d;
+            if (x >= 0 && x < (i128)n) out.push_back((u64)x);
+        }
+    if (a >= 1) {
+        const u64 cs = n / a, qmax = (n - 1) / cs;
+        const u64 Q[] = {1, 2, 3, 4, 7, 8, 15, 16, 17, 1ULL << 8, 1ULL << 16, 1ULL << 24, 1ULL << 32,
+                         1ULL << 40, 1ULL << 48, qmax / 3, qmax / 2, qmax ? qmax - 1 : 0, qmax};
+        for (u64 q : Q) {
+            if (q > qmax) continue;
+            const u128 base = (u128)q * cs;
+            for (u64 r = 0; r <= 19; ++r) {
+                const u64 rr = r <= 16 ? r : r == 17 ? cs / 2 : r == 18 ? (cs >= 2 ? cs - 2 : 0) : cs - 1;
+                if (rr >= cs) continue;  // keeps b % cs == rr
+                const u128 x = base + rr;
+                if (x < (u128)n) out.push_back((u64)x);
+            }
+        }
+    }
+    uniq(out);
+    return out;
+}
+
 struct CubeStats {
     unsigned long long evals = 0, viol = 0, wraps = 0, mul_overflow_path = 0, mul_fit_path = 0,
-                       add_reduced = 0, sub_borrow = 0, half_odd = 0, pow_evals = 0;
+                       add_reduced = 0, sub_borrow = 0, half_odd = 0, pow_evals = 0, lattice_evals = 0,
+                       lattice_overflow_path = 0, lattice_overflow_rem_ge8 = 0, lattice_n_above_2_63 = 0;
     int shown[12] = {0};
 };
 
@@ -89,25 +140,21 @@ inline void report(CubeStats &st, int slot, const char *kind, const char *op, u6
                     u64s(want).c_str());
 }
 
-// A trap inside a helper (e.g. a division by zero) on operands the statement covers is a violation for those
-// operands, not a harness failure: report it in the usual V format and stop this process with a distinct code.
-static const char *volatile c12_cur_op = "";
-static volatile u64 c12_cur_a = 0, c12_cur_b = 0, c12_cur_n = 0;
-extern "C" inline void c12_trap(int sig) {
-    std::fflush(stdout);
-    std::printf("V {\"kind\":\"mod-value\",\"op\":\"%s\",\"a\":\"%s\",\"b\":\"%s\",\"n\":\"%s\","
-                "\"got\":\"trap-signal-%d\",\"want\":\"the exact residue\"}\n",
-                c12_cur_op, u64s(c12_cur_a).c_str(), u64s(c12_cur_b).c_str(), u64s(c12_cur_n).c_str(), sig);
-    std::fflush(stdout);
-    std::_Exit(86);
-}
-static const bool c12_trap_installed = (std::signal(SIGFPE, c12_trap), true);
-
+// A trap inside a helper (e.g. a division by zero) or a call that does not return, on operands the statement
+// covers, is a violation for those operands, not a harness failure: c12_watchdog.hh reports it in the usual
+// V format (kind mod-value with got = trap-signal-N, or kind mod-hang) and stops this process with code 86.
+// The operands are laundered (wa_, wb_, wn_) so that the call cannot be moved out of the watchdog bracket.
 #define C12_CALL(slot, opname, expr, wantexpr, A_, B_, N_)                                  \
     do {                                                                                    \
-        c12_cur_op = opname; c12_cur_a = (A_); c12_cur_b = (B_); c12_cur_n = (N_);          \
+        u64 wa_ = (A_), wb_ = (B_), wn_ = (N_);                                             \
         const unsigned long ub0 = c12_ubsan_reports;                                        \
-        const u64 got_ = (expr);                                                            \
+        u64 got_;                                                                           \
+        {                                                                                   \
+            WdScope wds_(opname, wa_, wb_, wn_);                                            \
+            asm volatile("" : "+r"(wa_), "+r"(wb_), "+r"(wn_) : : "memory");                \
+            got_ = (expr);                                                                  \
+            asm volatile("" : : "r"(got_) : "memory");                                      \
+        }                                                                                   \
         const bool wrapped_ = c12_ubsan_reports != ub0;                                     \
         u64 want_ = (wantexpr);                                                             \
         if (perturbed(opname) && (A_) == 3) want_ ^= 1;                                     \
@@ -126,16 +173,16 @@ inline int modcube_single(int argc, char **argv) {
               n = std::strtoull(argv[5], nullptr, 10);
     CubeStats st;
     if (op == "add_mod")
-        C12_CALL(0, "add_mod", au::detail::add_mod(a, b, n), (u64)(((u128)a + b) % n), a, b, n);
+        C12_CALL(0, "add_mod", au::detail::add_mod(wa_, wb_, wn_), (u64)(((u128)a + b) % n), a, b, n);
     else if (op == "sub_mod")
-        C12_CALL(1, "sub_mod", au::detail::sub_mod(a, b, n), (u64)(((u128)a + n - b) % n), a, b, n);
+        C12_CALL(1, "sub_mod", au::detail::sub_mod(wa_, wb_, wn_), (u64)(((u128)a + n - b) % n), a, b, n);
     else if (op == "mul_mod")
-        C12_CALL(2, "mul_mod", au::detail::mul_mod(a, b, n), (u64)(((u128)a * b) % n), a, b, n);
+        C12_CALL(2, "mul_mod", au::detail::mul_mod(wa_, wb_, wn_), (u64)(((u128)a * b) % n), a, b, n);
     else if (op == "half_mod_odd")
-        C12_CALL(3, "half_mod_odd", au::detail::half_mod_odd(a, n),
+        C12_CALL(3, "half_mod_odd", au::detail::half_mod_odd(wa_, wn_),
                  (u64)((((u128)a) + ((a & 1) ? (u128)n : 0)) / 2), a, 0, n);
     else if (op == "pow_mod")
-        C12_CALL(4, "pow_mod", au::detail::pow_mod(a, b, n), powmod(a, b, n), a, b, n);
+        C12_CALL(4, "pow_mod", au::detail::pow_mod(wa_, wb_, wn_), powmod(a, b, n), a, b, n);
     else
         return 2;
     std::printf("S {\"evals\":%llu,\"viol\":%llu,\"wraps\":%llu}\n", st.evals, st.viol, st.wraps);
@@ -173,11 +220,11 @@ inline int modcube_main(int argc, char **argv) {
                 }
             uniq(B);
             for (u64 b : B) {
-                C12_CALL(0, "add_mod", au::detail::add_mod(a, b, n),
+                C12_CALL(0, "add_mod", au::detail::add_mod(wa_, wb_, wn_),
                          (u64)(((u128)a + b) % n), a, b, n);
-                C12_CALL(1, "sub_mod", au::detail::sub_mod(a, b, n),
+                C12_CALL(1, "sub_mod", au::detail::sub_mod(wa_, wb_, wn_),
                          (u64)(((u128)a + n - b) % n), a, b, n);
-                C12_CALL(2, "mul_mod", au::detail::mul_mod(a, b, n),
+                C12_CALL(2, "mul_mod", au::detail::mul_mod(wa_, wb_, wn_),
                          (u64)(((u128)a * b) % n), a, b, n);
                 st.add_reduced += ((u128)a + b >= n);
                 st.sub_borrow += (a < b);
@@ -186,8 +233,27 @@ inline int modcube_main(int argc, char **argv) {
             if (n & 1) {
                 // the unique h < n with 2h == a (mod n)
                 const u64 h = (u64)((((u128)a) + ((a & 1) ? (u128)n : 0)) / 2);
-                C12_CALL(3, "half_mod_odd", au::detail::half_mod_odd(a, n), h, a, 0, n);
+                C12_CALL(3, "half_mod_odd", au::detail::half_mod_odd(wa_, wn_), h, a, 0, n);
                 st.half_odd += (a & 1);
+            }
+        }
+        // lattice pass
+        for (u64 a : lattice_a(n, A)) {
+            if (a == 0) continue;
+            const u64 cs = n / a;
+            for (u64 b : lattice_b(n, a)) {
+                C12_CALL(0, "add_mod", au::detail::add_mod(wa_, wb_, wn_),
+                         (u64)(((u128)a + b) % n), a, b, n);
+                C12_CALL(1, "sub_mod", au::detail::sub_mod(wa_, wb_, wn_),
+                         (u64)(((u128)a + n - b) % n), a, b, n);
+                C12_CALL(2, "mul_mod", au::detail::mul_mod(wa_, wb_, wn_),
+                         (u64)(((u128)a * b) % n), a, b, n);
+                st.lattice_evals += 3;
+                if ((u128)a * b > (u128)MAXU) {
+                    ++st.lattice_overflow_path;
+                    st.lattice_overflow_rem_ge8 += (b % cs >= 8);
+                    st.lattice_n_above_2_63 += (n >> 63);
+                }
             }
         }
         std::vector<u64> bases = A;
@@ -205,15 +271,19 @@ inline int modcube_main(int argc, char **argv) {
                     if (ee & 1) r = (r * x) % n;
                     x = (x * x) % n;
                 }
-                C12_CALL(4, "pow_mod", au::detail::pow_mod(b, e, n), (u64)r, b, e, n);
+                C12_CALL(4, "pow_mod", au::detail::pow_mod(wa_, wb_, wn_), (u64)r, b, e, n);
                 ++st.pow_evals;
             }
     }
     std::printf("S {\"moduli\":%llu,\"moduli_total\":%llu,\"evals\":%llu,\"viol\":%llu,\"wraps\":%llu,"
                 "\"mul_overflow_path\":%llu,\"mul_fit_path\":%llu,\"add_reduced\":%llu,"
-                "\"sub_borrow\":%llu,\"half_odd\":%llu,\"pow_evals\":%llu}\n",
+                "\"sub_borrow\":%llu,\"half_odd\":%llu,\"pow_evals\":%llu,\"lattice_evals\":%llu,"
+                "\"lattice_overflow_path\":%llu,\"lattice_overflow_rem_ge8\":%llu,"
+                "\"lattice_n_above_2_63\":%llu}\n",
                 nmod, (unsigned long long)M.size(), st.evals, st.viol, st.wraps, st.mul_overflow_path,
-                st.mul_fit_path, st.add_reduced, st.sub_borrow, st.half_odd, st.pow_evals);
+                st.mul_fit_path, st.add_reduced, st.sub_borrow, st.half_odd, st.pow_evals,
+                st.lattice_evals, st.lattice_overflow_path, st.lattice_overflow_rem_ge8,
+                st.lattice_n_above_2_63);
     return 0;
 }
 
